@@ -85,6 +85,11 @@ def tasks(tier):
                    strat_menu=[3, 1, 9], strat_free=True, max_unknown=None, sleeper="call",
                    faults=[("strategy", idx, "KeyError")])
         out.append({"family": "envelope-strategy-fault", "cfg": cfg, "entry": e, "bound": 0})
+    # strategy answers that are ints (seconds)
+    for D, e in itertools.product([3, 5], Q4):
+        cfg = dict(M=3, deadline=D, alphabet=["ok", "x:T", "r:R"], durs=[0, 1], dur_free=True,
+                   strat_menu=["int:1", "int:2", 1], strat_free=True, max_unknown=None, sleeper="call")
+        out.append({"family": "envelope-int-answers", "cfg": cfg, "entry": e, "bound": 0})
     # an abort predicate is configured (it never fires) and the delay is capped by the deadline
     for D, e in itertools.product([3, 5, 7], Q4 + ["Policy.call", "RetryPolicy.execute"]):
         cfg = dict(M=3, deadline=D, alphabet=["ok", "x:T", "r:R"], durs=[0, 1], dur_free=True,
